@@ -231,6 +231,14 @@ func lex(src string) ([]tok, error) {
 		switch {
 		case unicode.IsSpace(r):
 			i++
+		case r == '$' && i+1 < len(rs) && (unicode.IsLetter(rs[i+1]) || rs[i+1] == '_'):
+			// $name: a source identifier that collides with a keyword of the contract language
+			j := i + 1
+			for j < len(rs) && (unicode.IsLetter(rs[j]) || unicode.IsDigit(rs[j]) || rs[j] == '_') {
+				j++
+			}
+			out = append(out, tok{"qid", string(rs[i+1 : j])})
+			i = j
 		case unicode.IsLetter(r) || r == '_':
 			j := i
 			for j < len(rs) && (unicode.IsLetter(rs[j]) || unicode.IsDigit(rs[j]) || rs[j] == '_') {
@@ -566,6 +574,8 @@ func (p *parser) parsePrimary() Expr {
 		return &EFloat{f}
 	case "str":
 		return &EStr{t.s}
+	case "qid":
+		return &EIdent{t.s}
 	case "id":
 		switch t.s {
 		case "true":
@@ -887,6 +897,11 @@ func parseSpecFile(path string, pkgPath string) (*SpecFile, error) {
 			if strings.TrimSpace(rest) == "*" {
 				f.ModAll = true
 				break
+			}
+			if strings.HasPrefix(strings.TrimSpace(rest), "*") {
+				// "modifies *, g(x), h": everything, and in addition the listed stable ghosts
+				f.ModAll = true
+				rest = strings.TrimLeft(strings.TrimPrefix(strings.TrimSpace(rest), "*"), ", ")
 			}
 			if strings.TrimSpace(rest) == "nothing" {
 				break
